@@ -559,6 +559,80 @@ def stage_ragged_and_handlers(ctx: Ctx):
                                 break
 
 
+LC_PROGS = ['if x:\n    a  # c\ny\n', 'def f():\n    if x:\n        a = 1  # c\n    else:\n        b  # dd\nz = 1  # e\n', 'class K:\n    def m(self):\n        return 1  # r\n\n    x = 2  # é ü\n',
+            'for i in j:\n    with a:  # w\n        b  # c\n', 'try:\n    a  # c\nfinally:\n    b  # d\n', 'if x: a  # c\ny\n', 'while q:\n    a\n    b  # last\nelse:  # e\n    c  # cc\n']
+LC_TEXTS = ['much longer comment than before', 'x', '', None, 'é' * 9]
+
+
+def stage_line_comment_then_edit(ctx: Ctx):
+    """deterministic: the locations of every node are queried (and so cached), then a line comment is replaced / added / deleted through put_line_comment(): every node's loc / bloc / pars equal
+    those of a fresh tree of the new source; then every enclosing block statement is removed / replaced / cut: the tree still equals the parse of its source"""
+    import fst
+    for src in LC_PROGS:
+        probe = fst.FST(src, 'exec')
+        stmts = [probe.child_path(f, True) for f in probe.walk(True) if isinstance(f.a, ast.stmt)]
+        for path in stmts:
+            for text in LC_TEXTS:
+                for full in (False, True):
+                    if full and text is not None:
+                        text_ = '  # ' + text
+                    else:
+                        text_ = text
+                    root = fst.FST(src, 'exec')
+                    for f in root.walk(True):      # warm every cache
+                        f.loc, f.bloc, f.pars()
+                    node = root.child_from_path(path)
+                    rec = {'src': src, 'statement': path, 'comment': text_, 'full': full}
+                    try:
+                        node.put_line_comment(text_, full=full)
+                    except Exception as e:
+                        continue
+                    ctx.tick(('line-comment-edit', src, path, text_, full), 'sweep:line-comment')
+                    d = reparse_diffs(root)
+                    if d:
+                        ctx.violation('pos|line-comment-put', 'after put_line_comment() the source parsed from scratch differs from the live tree', {**rec, 'result_src': root.src, 'diffs': d[:4]})
+                        continue
+                    fresh = fst.FST(root.src, 'exec')
+                    stale = []
+                    for f in root.walk(True):
+                        g = fresh.child_from_path(root.child_path(f))
+                        if (f.loc, f.bloc, f.pars()) != (g.loc, g.bloc, g.pars()):
+                            stale.append((root.child_path(f, True), str(f.bloc), str(g.bloc)))
+                    if stale:
+                        ctx.violation('stale-location|line-comment-put', 'after put_line_comment() a node answers loc / bloc / pars differently from a fresh tree of the same source (a cached location was kept)',
+                                      {**rec, 'result_src': root.src, 'stale': stale[:4]})
+                        continue
+                    # then edit every enclosing block
+                    anc = []
+                    f = node
+                    while f.parent is not None and f.parent.parent is not None:
+                        f = f.parent
+                        if isinstance(f.a, ast.stmt):
+                            anc.append(root.child_path(f, True))
+                    for apath in anc:
+                        for how in ('remove', 'replace', 'cut'):
+                            r2 = fst.FST(src, 'exec')
+                            for f in r2.walk(True):
+                                f.loc, f.bloc, f.pars()
+                            try:
+                                r2.child_from_path(path).put_line_comment(text_, full=full)
+                                a2 = r2.child_from_path(apath)
+                                if how != 'replace' and len(getattr(a2.parent.a, a2.pfield.name)) == 1:
+                                    continue      # the only statement of its block: removing it leaves an empty block, which is allowed to be invalid
+                                if how == 'remove':
+                                    a2.remove()
+                                elif how == 'replace':
+                                    a2.replace('pass')
+                                else:
+                                    a2.cut()
+                            except Exception:
+                                continue
+                            d = reparse_diffs(r2)
+                            if d:
+                                ctx.violation(f'pos|line-comment-then-{how}', 'a block statement edited after a line comment inside it was changed: the source parsed from scratch differs from the live tree',
+                                              {**rec, 'block': apath, 'how': how, 'result_src': r2.src, 'diffs': d[:4]})
+
+
 DELIMIT_HDR = ('From Coq Require Import ZArith List Bool.\nFrom PF Require Import kernel.OffsetBase gen.DelimitCalls models.Offset models.Delimit.\n'
                'Import ListNotations.\nLocal Open Scope Z_scope.\n'
                "Definition chk (own : bool) (ls cs le ce : Z) (l : list (role * npos * npos)) : bool := "
@@ -647,6 +721,7 @@ def run(ctx: Ctx):
     run_guarded(ctx, stage_structural_sweep)
     run_guarded(ctx, stage_par_unpar)
     run_guarded(ctx, stage_ragged_and_handlers)
+    run_guarded(ctx, stage_line_comment_then_edit)
     if ok:
         run_guarded(ctx, stage_delimit_corr)
     if ok:
